@@ -29,6 +29,7 @@ PWS = ['hunter2 ☃', b'octets\xff', 'same passphrase']
 EC = ['x25519', 'p256', 'p384', 'p521']
 PROTECT_KEY = 'eddsa+cv25519'
 _REAL = os.urandom
+_PGPY_DIR = os.path.join(os.environ.get('PYVC_REPO', '/repo'), 'pgpy') + '/'
 
 
 def _where():
@@ -36,8 +37,8 @@ def _where():
     for _ in range(12):
         if f is None:
             break
-        if f.f_code.co_filename.startswith('/repo/pgpy'):
-            return '%s:%s' % (f.f_code.co_filename[len('/repo/pgpy/'):], f.f_code.co_name)
+        if f.f_code.co_filename.startswith(_PGPY_DIR):
+            return '%s:%s' % (f.f_code.co_filename[len(_PGPY_DIR):], f.f_code.co_name)
         f = f.f_back
     return 'outside pgpy'
 
